@@ -102,7 +102,7 @@ def run(tier, seed):
     t0 = time.time()
     plan = [('release', 1.0)]
     if tier == 'quick':
-        nseq, variants = 2400, [('release', 1.0), ('dev', 0.25)]
+        nseq, variants = 2400, [('release', 1.0), ('dev', 0.25), ('std', 0.15)]
     else:
         nseq, variants = 120000, [('release', 1.0), ('dev', 0.15), ('std', 0.15)]
     total = Result()
